@@ -655,13 +655,15 @@ def _blank_check(facts, rep, rb, hb, hcfg, hflag, harr):
             n += 1
             shows = any(src[0] == "field" and src[1] in want for c in span for src in c)
             only_blank = [i for i, c in enumerate(span) if c and all(src in (("blank",), ("lit", " ")) for src in c)]
+            may_blank = [i for i, c in enumerate(span) if ("blank",) in c]
             if known:
-                ok = shows and len(only_blank) < len(span)
+                # the value is known whatever it is (zero included): no path may print blanks in its place
+                ok = shows and not may_blank
                 rep.oblige(ok, ("filled", label, name))
                 if not ok:
                     rep.add(Finding("R14.8", "column %s blank although the value is known" % name,
-                                    "row with every parameter %s: column %s (field `%s`) is printed blank - a known value is not shown"
-                                    % (label, name, want[0]), rb.loc()))
+                                    "row with every parameter %s: column %s (field `%s`) %s - a known value is not shown"
+                                    % (label, name, want[0], "is printed blank" if not shows else "can be printed blank for some values (e.g. 0)"), rb.loc()))
             else:
                 ok = not shows
                 rep.oblige(ok, ("blank", name))
